@@ -446,7 +446,7 @@ func checkC01(c *lib.Ctx) {
 	} else {
 		r.Note("xfer.plan not available: the expected chunk plan is computed by the harness itself (xfPlan / xfExpectWire)")
 	}
-	root, err := os.MkdirTemp("", "vh-c01-")
+	root, err := lib.MkScratch("vh-c01-")
 	if err != nil {
 		r.Fail(lib.Failure{Kind: "tie", Key: "tmpdir", What: err.Error()})
 		return
